@@ -393,7 +393,10 @@ def run(ctx):
         'every event each call\'s Deferred must have fired exactly as the '
         'reference call table says and the armed timers must be exactly the '
         'outstanding deadlines; in every state the clock is then run out and '
-        'late replies delivered: nothing may fire again. Long-lived '
+        'late replies delivered: nothing may fire again. Calls made with '
+        'message objects of application subclasses of MethodCallMessage '
+        'next to plain calls, other message types built in between, answers '
+        'in both orders. Long-lived '
         'process: a call outstanding while 254..257 and 65534..65537 further '
         'messages are built (unsent signals, or answered calls on the same '
         'connection), then a second call, answers in either order')
@@ -627,6 +630,87 @@ def run_long_lived(gap, order, timeout, filler):
     return viol
 
 
+def run_subclassed(order, kinds):
+    """calls made with message objects of application subclasses of
+    MethodCallMessage (callRemoteMessage) next to plain callRemote calls,
+    with other messages (a signal, a return, an error) built in between:
+    every call has a serial of its own and completes with its own answer"""
+    from txdbus import message as M
+    viol = []
+    cw = fakes.ClientWorld()
+    try:
+        cw.sent()
+        conn = cw.conn
+
+        class PeerPing(M.MethodCallMessage):
+            pass
+
+        class PeerPong(PeerPing):
+            extra = 'application attribute'
+        results = {}
+        serials = {}
+
+        def sink(tag):
+            results[tag] = []
+            return lambda r: results[tag].append(
+                ('err', getattr(r.value, 'errName', type(r.value).__name__))
+                if hasattr(r, 'value') else
+                ('ok', r.body if hasattr(r, 'body') else r))
+        for tag in kinds:
+            if tag.rstrip('2') == 'plain':
+                d = conn.callRemote('/o', 'Plain', interface='a.b',
+                                    destination='c.d')
+            elif tag == 'signal':
+                conn.sendMessage(M.SignalMessage('/o', 'S', 'a.b'))
+                M.MethodReturnMessage(5)
+                M.ErrorMessage('a.b.E', 5)
+                cw.sent()
+                continue
+            else:
+                cls = {'sub': PeerPing, 'subsub': PeerPong,
+                       'base': M.MethodCallMessage}[tag.rstrip('2')]
+                d = conn.callRemoteMessage(cls(
+                    '/o', 'Ping', interface='a.b', destination='c.d'))
+            d.addBoth(sink(tag))
+            out = [m for m in cw.sent() if m['type'] == 1]
+            serials[tag] = out[0]['serial'] if len(out) == 1 else None
+        calls = [t for t in kinds if t != 'signal']
+        if None in serials.values() or \
+                len(set(serials.values())) != len(calls):
+            viol.append(('subclassed/serials',
+                         'calls %r went out with the serials %r'
+                         % (calls, serials)))
+            return viol
+        seq = calls if order == 'fifo' else calls[::-1]
+        for tag in seq:
+            conn.dataReceived(R.encode_message(
+                R.METHOD_RETURN, 950, {'reply_serial': serials[tag]}, 's',
+                ['for-' + tag]))
+        cw.clock.advance(1000)
+        for tag in calls:
+            got = results[tag]
+            ok = len(got) == 1 and got[0][0] == 'ok' and \
+                got[0][1] in ('for-' + tag, ['for-' + tag])
+            if not ok:
+                viol.append(('subclassed/completion',
+                             'calls %r (serials %r) answered in %s order: '
+                             'call %r completed with %r'
+                             % (calls, serials, order, tag, got)))
+                break
+    except Exception as e:
+        viol.append(('subclassed/raises-%s' % type(e).__name__,
+                     'calls %r: raised %r' % (kinds, e)))
+    finally:
+        cw.close()
+    return viol
+
+
+SUBCLASSED = [('plain', 'sub'), ('sub', 'plain'), ('plain', 'sub', 'plain2'),
+              ('sub', 'subsub', 'base'), ('plain', 'signal', 'sub'),
+              ('sub', 'signal', 'plain', 'subsub'), ('sub', 'sub2'),
+              ('base', 'plain', 'sub', 'signal', 'subsub', 'sub2')]
+
+
 def _task_long_lived(task):
     res = core.Result()
     gap, filler = task
@@ -658,6 +742,16 @@ def _task_resend(_):
                                       {'part': 'resend', 'args':
                                        [first, second, timeout, chain]},
                                       size=chain)
+    for kinds in SUBCLASSED:
+        for order in ('fifo', 'lifo'):
+            res.count('states')
+            res.count('transitions', len(kinds) * 2)
+            res.count('evaluations')
+            res.count('nontrivial')
+            for t, w in run_subclassed(order, kinds):
+                res.violation('%s/%s' % (PROP, t), w,
+                              {'part': 'subclassed', 'args':
+                               [order, list(kinds)]}, size=len(kinds))
     for n in (2, 3):
         for at in range(n):
             for kinds in itertools.product(('return', 'error'), repeat=n):
@@ -679,6 +773,10 @@ def replay(data):
     if data.get('part') == 'long-lived':
         return [('%s/%s' % (PROP, t), w)
                 for t, w in run_long_lived(*data['args'])]
+    if data.get('part') == 'subclassed':
+        return [('%s/%s' % (PROP, t), w)
+                for t, w in run_subclassed(data['args'][0],
+                                           tuple(data['args'][1]))]
     if data.get('part') == 'resend':
         return [('%s/%s' % (PROP, t), w)
                 for t, w in run_resend(*data['args'])]
